@@ -35,6 +35,7 @@ class RegexCompiler:
         self.multiline = "m" in flags
         self.ignorecase = "i" in flags
         self.dotall = "s" in flags
+        self.backward = False  # compiling the body of a lookbehind
 
     def compile(self, ast: Node, capture_count: int) -> List[Tuple]:
         """
@@ -193,19 +194,23 @@ class RegexCompiler:
 
     def _compile_anchor(self, node: Anchor):
         """Compile anchor."""
-        if node.type == "start":
+        kind = node.type
+        if self.backward and kind in ("start", "end"):
+            # the body runs on the mirrored string
+            kind = "end" if kind == "start" else "start"
+        if kind == "start":
             if self.multiline:
                 self._emit(Op.LINE_START_M)
             else:
                 self._emit(Op.LINE_START)
-        elif node.type == "end":
+        elif kind == "end":
             if self.multiline:
                 self._emit(Op.LINE_END_M)
             else:
                 self._emit(Op.LINE_END)
-        elif node.type == "boundary":
+        elif kind == "boundary":
             self._emit(Op.WORD_BOUNDARY)
-        elif node.type == "not_boundary":
+        elif kind == "not_boundary":
             self._emit(Op.NOT_WORD_BOUNDARY)
 
     def _compile_backref(self, node: Backref):
@@ -227,37 +232,28 @@ class RegexCompiler:
 
     def _compile_lookahead(self, node: Lookahead):
         """Compile lookahead assertion."""
-        if node.positive:
-            split_idx = self._emit(Op.LOOKAHEAD, 0)  # Placeholder for end
-        else:
-            split_idx = self._emit(Op.LOOKAHEAD_NEG, 0)
+        opcode = Op.LOOKAHEAD if node.positive else Op.LOOKAHEAD_NEG
+        self._compile_lookaround(node, opcode, Op.LOOKAHEAD_END, False)
 
+    def _compile_lookaround(self, node, opcode: Op, end_opcode: Op, backward: bool):
+        """Emit (opcode, end, mirror), the body in its direction, end_opcode."""
+        # mirror: the body's direction differs from that of the enclosing code
+        idx = self._emit(opcode, 0, backward != self.backward)
+        saved, self.backward = self.backward, backward
         self._compile_node(node.body)
-        self._emit(Op.LOOKAHEAD_END)
-
-        # Patch the jump target
-        end_offset = self._current_offset()
-        instr = self.bytecode[split_idx]
-        self._patch(split_idx, instr[0], end_offset)
+        self.backward = saved
+        self._emit(end_opcode)
+        self._patch(idx, opcode, self._current_offset(), self.bytecode[idx][2])
 
     def _compile_lookbehind(self, node: Lookbehind):
         """Compile lookbehind assertion."""
-        if node.positive:
-            split_idx = self._emit(Op.LOOKBEHIND, 0)
-        else:
-            split_idx = self._emit(Op.LOOKBEHIND_NEG, 0)
-
-        self._compile_node(node.body)
-        self._emit(Op.LOOKBEHIND_END)
-
-        # Patch the jump target
-        end_offset = self._current_offset()
-        instr = self.bytecode[split_idx]
-        self._patch(split_idx, instr[0], end_offset)
+        opcode = Op.LOOKBEHIND if node.positive else Op.LOOKBEHIND_NEG
+        self._compile_lookaround(node, opcode, Op.LOOKBEHIND_END, True)
 
     def _compile_alternative(self, node: Alternative):
         """Compile sequence of terms."""
-        for term in node.terms:
+        # Inside a lookbehind the right-most term is matched first
+        for term in reversed(node.terms) if self.backward else node.terms:
             self._compile_node(term)
 
     def _compile_disjunction(self, node: Disjunction):
